@@ -6,7 +6,7 @@ CHECKS = [
     {"property_id": "C01",
      "text": "Completeness of the modelled schemes is a Coq theorem for every field, trapdoor, degree, polynomial, point, hiding bound and RNG tape; "
              "the model is compared with the library on generated honest transcripts (commitments, randomness, proofs, decisions, RNG draws).",
-     "note": COMMON_NOTE + " Currently modelled for C01: KZG10 (commit/open/check); other schemes are being added."},
+     "note": COMMON_NOTE + " Modelled for C01: KZG10 and MarlinKZG10 (trim/commit/open/check/batch_open/batch_check with degree bounds and hiding)." + ""},
     {"property_id": "C16",
      "text": "Coq theorems (unbounded): every LinearCombination operator and every operator sequence acts on values as the corresponding arithmetic; "
              "evaluate_query_set maps exactly the queried (label, point) keys to the polynomial's value; SuccinctCheckPolynomial::evaluate equals Horner "
@@ -14,6 +14,36 @@ CHECKS = [
              "The extracted model is compared term by term with the library's operators, evaluate_query_set and SuccinctCheckPolynomial.",
      "note": COMMON_NOTE + " Modelled: data_structures.rs LinearCombination operators (terms as ordered list), lib.rs evaluate_query_set (BTreeMap as ordered "
              "association list), ipa_pc SuccinctCheckPolynomial::{evaluate,compute_coeffs}. Not modelled: string labels (numeric labels printed fixed-width)."},
+]
+GENERIC = (" All other schemes behind the PolynomialCommitment trait (Sonic, IPA, PST13, Hyrax, univariate/multilinear Ligero, Brakedown) are "
+           "exercised by the same generated histories and judged by implementation-level oracles (supporting search, not proof) until their models land.")
+CHECKS += [
+    {"property_id": "C02",
+     "text": "Coq theorems: KZG10 check rejects value+d for every d<>0 (unconditional), accepts another point iff W*h*(z'-z)=0, another commitment "
+             "iff it is equal; Marlin (any list of polynomials, with/without degree bounds): at every position j the claim v_j+d is accepted iff "
+             "(g*xi_j + shift_j*xi'_j)*h*d = 0. The extracted KZG10 and Marlin models are run on the same honest transcripts and on every generated "
+             "statement mutation (value, point, commitment swap, cancelling deltas) and their decisions are compared with the library's.",
+     "note": COMMON_NOTE + " Modelled: kzg10::{setup,commit,open,check,batch_check}, marlin_pc::{trim,commit,open,check,batch_open,batch_check}, "
+             "Marlin::{accumulate_commitments_and_values,combine_and_normalize} incl. query grouping." + GENERIC},
+    {"property_id": "C03",
+     "text": "Partial. Coq theorems: KZG10 binding against algebraic provers (acceptance of a false value forces the trapdoors onto the zero set of an "
+             "explicit non-zero polynomial; root-count bound), exact characterisation of a replaced witness / blinding value, refusal of batches with "
+             "missing or surplus proofs. Correspondence: extracted KZG10/Marlin models vs library on crafted proofs (replaced/added witness elements, "
+             "proofs of other polynomials/points, empty / truncated / extended / permuted / duplicated proof lists).",
+     "note": COMMON_NOTE + " No general knowledge-soundness proof (IPA rewinding, Ligero/Brakedown proximity): see DESIGN.md section 6." + GENERIC},
+    {"property_id": "C05",
+     "text": "Coq theorems: KZG10::batch_check (the engine of the Marlin batch verifier) decides 'sum_i rho_i * E_i = 0' where E_i is exactly the residual "
+             "of the i-th individual check, rho_1 = 1 and rho_(i+1) is the i-th verifier draw (one draw per claim); all-true batches accept for every "
+             "randomness; one false claim with non-zero randomizer rejects; length mismatches are refused. Correspondence: model vs library on true, "
+             "one-false, cancelling, short, long, permuted, duplicated and empty batches, with the verifier's RNG replayed as the model's tape.",
+     "note": COMMON_NOTE + " Modelled batch verifiers: KZG10::batch_check, MarlinKZG10::batch_check (grouping + accumulate + KZG10 batch)." + GENERIC},
+    {"property_id": "C10",
+     "text": "Coq theorems: the KZG10 check as coded accepts iff e(C - vG - rv*gammaG, H) = e(W, betaH - zH); honest proofs satisfy it; every "
+             "component (value, point, commitment, witness, blinding value, vk.g, vk.beta_h) moves the residual by an explicit term; the Marlin check "
+             "is an explicit affine function of the claimed values with coefficients from the transcript challenges. The extracted model is the "
+             "independent implementation of the relation: its decisions are compared with the library's over the single-fault neighbourhood of "
+             "honest transcripts (statement, proof and key components replaced).",
+     "note": COMMON_NOTE + GENERIC},
 ]
 _PENDING = "check not built yet in this round (model and correspondence under construction; see DESIGN.md section 7)"
 _CLAIMED = {c["property_id"] for c in CHECKS}
